@@ -5,9 +5,9 @@
      src/memvid/lifecycle.rs : read_toc (length + commit-footer hash), load_memories_track /
                                load_logic_mesh (manifest checksum), the deferred
                                Toc::verify_checksum at the end of open_locked
-     src/memvid/frame.rs     : validate_frame_bounds, read_frame_payload_bytes,
-                               frame_canonical_bytes (non-chunked frame)
-     src/memvid/maintenance.rs : Memvid::verify, check by check
+     src/memvid/frame.rs     : validate_frame_bounds, read_frame_payload_bytes (with the frame-checksum
+                               comparison of /repo 55d5bb8), frame_canonical_bytes (non-chunked frame)
+     src/memvid/maintenance.rs : Memvid::verify, check by check (incl. FramePayloadChecksums)
    and reuse Model/Footer.v (footer codec, hash_matches), Model/TimeIndex.v (read_track),
    Model/Wal.v (scan_records / record image).  BLAKE3 and zstd are Section variables. *)
 From MV Require Import Base.Prelude Model.Footer Model.TimeIndex Model.Wal Model.Bincode Model.Toc.
@@ -18,13 +18,14 @@ Inductive rclass :=
 | HdrMagic | HdrFooterOff | HdrWalOff | HdrWalSize | HdrCkptPos | HdrWalSeq | HdrTocSum | HdrLegacy | HdrPad
 | LogSeq | LogLen | LogReserved | LogDigest | LogPayload | LogSentinel | LogSlack
 | PayPlain | PayZstd | TimeIdx | Tantivy | VecIdx | Sketch | Memories | Mesh
-| TocBytes | FootMagic | FootLen | FootHash | FootGen | Unref | PastFooter | PayInactive.
+| TocBytes | FootMagic | FootLen | FootHash | FootGen | Unref | PastFooter | PayInactive
+| PayChunk.    (* stored payload of an active DocumentChunk frame whose parent document has a chunk manifest *)
 
 Definition all_classes : list rclass :=
   [HdrMagic; HdrFooterOff; HdrWalOff; HdrWalSize; HdrCkptPos; HdrWalSeq; HdrTocSum; HdrLegacy; HdrPad;
    LogSeq; LogLen; LogReserved; LogDigest; LogPayload; LogSentinel; LogSlack;
    PayPlain; PayZstd; TimeIdx; Tantivy; VecIdx; Sketch; Memories; Mesh;
-   TocBytes; FootMagic; FootLen; FootHash; FootGen; Unref; PastFooter; PayInactive].
+   TocBytes; FootMagic; FootLen; FootHash; FootGen; Unref; PastFooter; PayInactive; PayChunk].
 
 (* the codes used by harness/src/c20.rs *)
 Definition class_of_code (n : N) : option rclass := nth_error all_classes (N.to_nat n).
@@ -32,7 +33,8 @@ Definition class_of_code (n : N) : option rclass := nth_error all_classes (N.to_
 (* what stands between a changed byte of the class and a reader *)
 Inductive guard :=
 | GHash (check : N)      (* a BLAKE3 comparison: 1 = commit-footer hash over the TOC bytes (read_toc / footer scan),
-                            2 = log record digest over the record payload, 3 = track manifest checksum *)
+                            2 = log record digest over the record payload, 3 = track manifest checksum,
+                            4 = frame.checksum over the stored payload bytes *)
 | GStructural            (* only format checks of the decoder (magic, lengths, order, enum tags): partial *)
 | GValue                 (* a fixed value is demanded (magic / version / spec bytes) *)
 | GRecovered             (* the value is cross-checked and re-derived from the commit footer *)
@@ -54,8 +56,9 @@ Definition guard_of (c : rclass) : guard :=
   | LogDigest | LogPayload => GHash 2
   | LogSentinel => GStructural          (* a non-zero header there is parsed as a record *)
   | LogSlack => GNotRead
-  | PayPlain | PayZstd => GNone         (* frame.checksum is compared on no read path, nor by verify *)
-  | PayInactive => GNotRead
+  | PayPlain | PayZstd => GHash 4       (* since 55d5bb8: frame.checksum over the stored bytes, on every read and in verify(deep) *)
+  | PayInactive => GHash 4              (* on a read of that frame; verify(deep) loops over active frames only *)
+  | PayChunk => GHash 4                 (* as PayPlain/PayZstd; but search's resolve_chunk_context swallows the error (table) *)
   | TimeIdx => GStructural              (* magic, count*16 = length, order; manifest checksum never compared *)
   | Tantivy => GStructural              (* Tantivy's own footers; descriptor checksum never compared *)
   | VecIdx => GStructural               (* bincode decode; manifest checksum never compared *)
@@ -87,7 +90,7 @@ Definition S3 : obs := (VSame, VSame, 0).
 (* the classes on which the faithful model has no check: a change there can be served *)
 Definition known_class (c : rclass) : bool :=
   match c with
-  | PayPlain | PayZstd | TimeIdx | Tantivy | VecIdx | LogSeq | HdrWalSeq | HdrWalSize | HdrWalOff | TocBytes => true
+  | PayChunk | TimeIdx | Tantivy | VecIdx | LogSeq | HdrWalSeq | HdrWalSize | HdrWalOff | TocBytes => true
   | _ => false
   end.
 
@@ -112,9 +115,11 @@ Definition table (c : rclass) (k : fkind) : list obs :=
     | LogLen | LogDigest | LogPayload => [E3]
     | LogReserved | LogSlack => [S3]
     | LogSentinel => [E3; S3]
-    | PayPlain => [(VDiff, VDiff, 0); S3]                       (* S3: zeroing bytes that were zero *)
-    | PayZstd => [(VDiff, VDiff, 0); (VError, VError, 0); S3]
-    | PayInactive | Unref | FootGen => [S3]
+    | PayPlain | PayZstd => [(VError, VError, 1)]              (* the frame's reads fail, verify: FramePayloadChecksums Failed *)
+    | PayInactive => [(VError, VError, 0)]                      (* a read of that frame fails; not in verify's loop *)
+    | PayChunk => [(VDiff, VDiff, 1); (VError, VError, 1)]      (* payload reads fail, verify Failed; search hits on the document's
+                                                                   chunks silently fall back to frame.search_text: different hit text *)
+    | Unref | FootGen => [S3]
     | TimeIdx => [(VDiff, VDiff, 0); (VError, VError, 1); S3; (VDiff, VDiff, 1); (VError, VError, 0)]
     | Tantivy => [S3; (VDiff, VDiff, 0); (VError, VError, 0); E3; (VDiff, VDiff, 1); (VError, VError, 1)]
     | VecIdx => [(VDiff, VDiff, 0); S3; (VError, VError, 0); E3; (VDiff, VDiff, 1); (VError, VError, 1)]
@@ -185,7 +190,8 @@ Section Guards.
 
   (* ---- frames *)
   Record frame := mkFrame {
-    f_off : N; f_len : N; f_zstd : bool; f_canon_len : option N; f_checksum : bytes }.
+    f_off : N; f_len : N; f_zstd : bool; f_canon_len : option N; f_checksum : bytes;
+    f_active : bool }.                                  (* status == FrameStatus::Active *)
 
   Definition MAX_FRAME_BYTES : N := 268435456.
   Definition E_FR_MAX : N := 1.       (* "payload length exceeds maximum" *)
@@ -196,7 +202,7 @@ Section Guards.
   Definition E_FR_FILE : N := 6.      (* "payload extends past file length" *)
   Definition E_FR_DECODE : N := 7.    (* "failed to decode canonical payload" *)
   Definition E_FR_CANON : N := 8.     (* "canonical length mismatch" *)
-  Definition E_FR_SUM : N := 10.      (* fixed model only: payload checksum mismatch *)
+  Definition E_FR_SUM : N := 10.      (* "payload checksum mismatch" (since 55d5bb8) *)
 
   (* validate_frame_bounds; ctx = (wal_offset, wal_size, data_end) of the handle *)
   Definition validate_frame_bounds (ctx : N * N * N) (file_len : N) (fr : frame) : outcome unit :=
@@ -210,6 +216,28 @@ Section Guards.
     else if file_len <? f_off fr + f_len fr then Err E_FR_FILE
     else Ok tt.
 
+  (* read_frame_payload_bytes as of 55d5bb8: bounds, read_exact of payload_length bytes at
+     payload_offset, then `!buf.is_empty() && blake3(buf) != frame.checksum` -> InvalidFrame.
+     frame.checksum is the digest of the STORED bytes (for a zstd frame: of the compressed bytes),
+     so the comparison happens before any decoding. *)
+  Definition read_frame_payload_bytes (ctx : N * N * N) (file : bytes) (fr : frame) : outcome bytes :=
+    match validate_frame_bounds ctx (N.of_nat (length file)) fr with
+    | Err e => Err e
+    | Panic s => Panic s
+    | Ok _ =>
+        let buf := slice file (N.to_nat (f_off fr)) (N.to_nat (f_len fr)) in
+        if negb (Nat.eqb (length buf) 0) && negb (guard_check buf (f_checksum fr)) then Err E_FR_SUM
+        else Ok buf
+    end.
+
+  (* the same function before 55d5bb8 (no comparison): kept to state what the fix closed *)
+  Definition read_frame_payload_bytes_unchecked (ctx : N * N * N) (file : bytes) (fr : frame) : outcome bytes :=
+    match validate_frame_bounds ctx (N.of_nat (length file)) fr with
+    | Err e => Err e
+    | Panic s => Panic s
+    | Ok _ => Ok (slice file (N.to_nat (f_off fr)) (N.to_nat (f_len fr)))
+    end.
+
   Variable unzstd : bytes -> option bytes.       (* zstd::decode_all *)
 
   Definition decode_canonical (fr : frame) (raw : bytes) : outcome bytes :=
@@ -221,34 +249,21 @@ Section Guards.
     | None => Ok decoded
     end.
 
+  Definition decode_and_check (fr : frame) (raw : outcome bytes) : outcome bytes :=
+    match raw with
+    | Ok r => match decode_canonical fr r with
+              | Ok decoded => check_canon_len fr decoded
+              | e => e
+              end
+    | e => e
+    end.
+
   (* frame_canonical_bytes for a frame without chunk manifest (a chunked document is the
      concatenation of its chunk frames' results) *)
   Definition frame_canonical_bytes (ctx : N * N * N) (file : bytes) (fr : frame) : outcome bytes :=
-    match validate_frame_bounds ctx (N.of_nat (length file)) fr with
-    | Err e => Err e
-    | Panic s => Panic s
-    | Ok _ =>
-        let raw := slice file (N.to_nat (f_off fr)) (N.to_nat (f_len fr)) in
-        match decode_canonical fr raw with
-        | Ok decoded => check_canon_len fr decoded
-        | e => e
-        end
-    end.
-
-  (* the minimal repair: read_frame_payload_bytes compares BLAKE3 of the stored bytes with
-     frame.checksum (which commit computed over exactly those bytes) *)
-  Definition frame_canonical_bytes_fixed (ctx : N * N * N) (file : bytes) (fr : frame) : outcome bytes :=
-    match validate_frame_bounds ctx (N.of_nat (length file)) fr with
-    | Err e => Err e
-    | Panic s => Panic s
-    | Ok _ =>
-        let raw := slice file (N.to_nat (f_off fr)) (N.to_nat (f_len fr)) in
-        if negb (guard_check raw (f_checksum fr)) then Err E_FR_SUM
-        else match decode_canonical fr raw with
-             | Ok decoded => check_canon_len fr decoded
-             | e => e
-             end
-    end.
+    decode_and_check fr (read_frame_payload_bytes ctx file fr).
+  Definition frame_canonical_bytes_unchecked (ctx : N * N * N) (file : bytes) (fr : frame) : outcome bytes :=
+    decode_and_check fr (read_frame_payload_bytes_unchecked ctx file fr).
 
   (* ---- Memvid::verify, check by check.  What it consults of the read-only handle: *)
   Record vstate := mkV {
@@ -256,6 +271,7 @@ Section Guards.
     v_lex : option bool;                          (* lex enabled? ensure_lex_index succeeded *)
     v_vec : option bool;                          (* vec enabled? ensure_vec_index succeeded *)
     v_pending : outcome (list wrec);              (* wal.pending_records() *)
+    v_payloads : bool;                            (* read_frame_payload_bytes is Ok for every ACTIVE frame with payload_length > 0 *)
     v_stats_frames : outcome N;                   (* stats().frame_count *)
     v_toc_frames : N }.
 
@@ -278,26 +294,26 @@ Section Guards.
      end) ++
     [match v_lex s with Some true => Passed | Some false => Failed | None => Skipped end;
      match v_vec s with Some true => Passed | Some false => Failed | None => Skipped end;
-     match v_pending s with Ok [] => Passed | _ => Failed end;
-     match v_stats_frames s with Ok n => if n =? v_toc_frames s then Passed else Failed | _ => Failed end].
+     match v_pending s with Ok [] => Passed | _ => Failed end] ++
+    (if deep then [if v_payloads s then Passed else Failed] else []) ++          (* FramePayloadChecksums (55d5bb8) *)
+    [match v_stats_frames s with Ok n => if n =? v_toc_frames s then Passed else Failed | _ => Failed end].
 
   Definition verify_overall (deep : bool) (s : vstate) : vstatus :=
     if existsb is_failed (verify_checks deep s) then Failed else Passed.
 
-  (* the repaired verify(deep): additionally every active frame's stored bytes against its checksum *)
-  Definition frames_check (ctx : N * N * N) (file : bytes) (frames : list frame) : vstatus :=
-    if forallb (fun fr => match frame_canonical_bytes_fixed ctx file fr with Ok _ => true | _ => false end) frames
-    then Passed else Failed.
-  Definition verify_overall_fixed (ctx : N * N * N) (file : bytes) (frames : list frame) (s : vstate) : vstatus :=
-    if existsb is_failed (verify_checks true s ++ [frames_check ctx file frames]) then Failed else Passed.
+  (* verify before 55d5bb8 = the same checks without FramePayloadChecksums *)
+  Definition without_payload_check (s : vstate) : vstate :=
+    mkV (v_time s) (v_lex s) (v_vec s) (v_pending s) true (v_stats_frames s) (v_toc_frames s).
+  Definition verify_overall_unchecked (deep : bool) (s : vstate) : vstatus := verify_overall deep (without_payload_check s).
 
-  (* where verify gets its state from: the log region and the index area of the file, through
-     the decoders (lex / vec decoders are oracles); never a frame's payload bytes *)
+  (* where verify gets its state from: the log region, the index area and (deep, since 55d5bb8) the
+     stored bytes of the active non-empty frames; the lex / vec decoders are oracles *)
   Record layout := mkLayout {
     l_wal_off : N; l_wal_size : N; l_ckpt_seq : N;
     l_time : option (N * N * N);                 (* offset, length, entry_count *)
     l_lex : option (N * N); l_vec : option (N * N);
-    l_frames : N }.
+    l_ctx : N * N * N;                           (* wal_offset, wal_size, data_end of the handle *)
+    l_frame_list : list frame }.
   Variable lex_ok vec_ok : bytes -> bool.
 
   Definition pending_of (region : bytes) (size ckpt : N) : outcome (list wrec) :=
@@ -307,6 +323,10 @@ Section Guards.
     | Panic s => Panic s
     end.
 
+  Definition checked_frame (fr : frame) : bool := f_active fr && negb (f_len fr =? 0).
+  Definition payload_reads (ctx : N * N * N) (file : bytes) (fr : frame) : bool :=
+    match read_frame_payload_bytes ctx file fr with Ok _ => true | _ => false end.
+
   Definition vstate_of (file : bytes) (l : layout) : vstate :=
     mkV (match l_time l with
          | Some (off, len, count) => Some (read_track file (N.to_nat off) len, count)
@@ -315,15 +335,17 @@ Section Guards.
         (match l_lex l with Some (off, len) => Some (lex_ok (slice file (N.to_nat off) (N.to_nat len))) | None => None end)
         (match l_vec l with Some (off, len) => Some (vec_ok (slice file (N.to_nat off) (N.to_nat len))) | None => None end)
         (pending_of (slice file (N.to_nat (l_wal_off l)) (N.to_nat (l_wal_size l))) (l_wal_size l) (l_ckpt_seq l))
-        (Ok (l_frames l)) (l_frames l).
+        (forallb (payload_reads (l_ctx l) file) (filter checked_frame (l_frame_list l)))
+        (Ok (N.of_nat (length (l_frame_list l)))) (N.of_nat (length (l_frame_list l))).
 
-  (* every byte range the layout refers to lies outside [lo, hi) *)
+  (* every byte range verify looks at lies outside [lo, hi) *)
   Definition range_outside (lo hi : N) (r : N * N) : bool := (fst r + snd r <=? lo) || (hi <=? fst r).
   Definition layout_outside (l : layout) (lo hi : N) : bool :=
     range_outside lo hi (l_wal_off l, l_wal_size l) &&
     match l_time l with Some (off, _, _) => hi <=? off | None => true end &&      (* read_track reads forward from off *)
     match l_lex l with Some r => range_outside lo hi r | None => true end &&
-    match l_vec l with Some r => range_outside lo hi r | None => true end.
+    match l_vec l with Some r => range_outside lo hi r | None => true end &&
+    forallb (fun fr => range_outside lo hi (f_off fr, f_len fr)) (filter checked_frame (l_frame_list l)).
 End Guards.
 
 (* ---- the end of open_locked.  `checksum_result = toc.verify_checksum()` is taken right after
